@@ -40,9 +40,23 @@ def pick(shapes, n, always=lambda s: False):
     return must + rest
 
 
+def cplx_mask(cplx, d):
+    """cplx: bool | list of bool | 'first' | 'last' | 'inner' -> which cores carry complex entries"""
+    if isinstance(cplx, (list, tuple)):
+        return [bool(x) for x in cplx]
+    if cplx == 'first':
+        return [i == 0 for i in range(d)]
+    if cplx == 'last':
+        return [i == d - 1 for i in range(d)]
+    if cplx == 'inner':
+        return [0 < i < d - 1 or d <= 2 and i == d - 1 for i in range(d)]
+    return [bool(cplx)] * d
+
+
 def mk_cores(ctx, name, s, cplx=False, **kw):
     d = len(s['rows'])
-    return [ctx.input('%s%d' % (name, i), (s['ranks'][i], s['rows'][i], s['cols'][i], s['ranks'][i + 1]), cplx, **kw) for i in range(d)]
+    m = cplx_mask(cplx, d)
+    return [ctx.input('%s%d' % (name, i), (s['ranks'][i], s['rows'][i], s['cols'][i], s['ranks'][i + 1]), m[i], **kw) for i in range(d)]
 
 
 def meta_ok(ctx, label, t):
